@@ -270,7 +270,7 @@ def container_xml(case: Dict[str, Any], cname: str, prefix: str) -> str:
     that is cached across cases: most layers of neighbouring cases are identical up to the batch prefix."""
     from odxmodel import emit
     keys = [k for k, _ in _layer_specs_keys_only(case)]
-    if len(_LAYER_CACHE) > 4000:
+    if len(_LAYER_CACHE) > 1500:  # (kept small: the workers fork a child per database)
         _LAYER_CACHE.clear()
     if any(k not in _LAYER_CACHE for k in keys):
         specs = _layer_specs(case, TOKEN)
